@@ -47,6 +47,7 @@ def r1_rollback(ctx):
         R.check(len(trunc) >= 1, "C20.R1", "%s:has-rollback" % name, "%s rolls the buffer back on error" % name, "%s never truncates the buffer: after a Serialize impl fails midway the partial bytes stay and build() emits invalid JSON (and panics on it)" % name, "%s:%d" % (b.file, b.lo))
         # error exits: blocks that assign _0 = Err(..)
         errs = [bi for bi, blk in enumerate(b.blocks) for st in blk["st"] if st["s"] == "assign" and st["pl"]["l"] == 0 and not st["pl"].get("p") and st["rv"]["k"] == "agg" and st["rv"].get("variant") == "Err" and bi in b.reachable]
+        errs += [c.bb for c in b.calls_to(r"FromResidual.*::from_residual$") if c.dest is not None and c.dest["l"] == 0 and c.bb in b.reachable]
         R.check(bool(errs), "C20.R1", "%s:reports-error" % name, "%s reports the serialisation error" % name, "%s has no error exit" % name, "%s:%d" % (b.file, b.lo))
         first_write = None
         for c in b.calls:
